@@ -303,6 +303,37 @@ fn case(m: &mut Mon, r: &mut Rng, _idx: u64) {
             let p = r.word();
             let which = r.below(10);
             let d = || format!("prim_bitops a={}{} p={:#x} which={}", if na { "-" } else { "" }, gen::hex(&a), p, which);
+            // the primitive integers implement the same bit-test trait: two's complement with infinitely many sign bits
+            m.check("prim_bit_test", "", Some(p ^ 0x51), &|| format!("prim_bit_test p={:#x}", p), || {
+                use dashu_base::BitTest;
+                macro_rules! pt {
+                    ($t:ty) => {{
+                        let v = p as $t;
+                        let model = BigInt::from(v);
+                        for n in [0usize, 1, 2, (<$t>::BITS - 2) as usize, (<$t>::BITS - 1) as usize, <$t>::BITS as usize, <$t>::BITS as usize + 1, 200, (p % 140) as usize] {
+                            ensure!(v.bit(n) == model_bit(&model, n), "value", "({}{}).bit({}) = {}", v, stringify!($t), n, v.bit(n));
+                        }
+                    }};
+                }
+                pt!(u8);
+                pt!(u16);
+                pt!(u32);
+                pt!(u64);
+                pt!(u128);
+                pt!(usize);
+                pt!(i8);
+                pt!(i16);
+                pt!(i32);
+                pt!(i64);
+                pt!(i128);
+                pt!(isize);
+                let q = ((p as i128) << 64) | (p.rotate_left(29) as i128);
+                let model = BigInt::from(q);
+                for n in [126usize, 127, 128, 64, 63] {
+                    ensure!(q.bit(n) == model_bit(&model, n), "value", "({}i128).bit({}) = {}", q, n, q.bit(n));
+                }
+                Ok(())
+            });
             m.check("prim_bitops", &format!("{}/w{}", gen::size_class(la), which), if la > 0 { Some(h ^ p) } else { None }, &d, || match which {
                 0 => {
                     let q = p as u8;
